@@ -491,9 +491,19 @@ pub fn worker_main(engine: &dyn Engine, args: &[String]) -> i32 {
 
     // Watchdog: a case in flight for longer than the budget is reported as a hang.
     if describe.is_none() {
-        std::thread::spawn(|| loop {
+        std::thread::spawn(|| {
+            let mut last_alive = mono_ms();
+            loop {
             std::thread::sleep(Duration::from_millis(200));
             let idx = IN_FLIGHT.load(Ordering::SeqCst);
+            // A long multi-run case (a search that calls `heartbeat`) says so every 20 s, so
+            // that the parent can tell a working shard from a dead one.
+            if mono_ms().saturating_sub(last_alive) > 20_000 {
+                last_alive = mono_ms();
+                let mut o = std::io::stdout().lock();
+                let _ = writeln!(o, "A {idx}");
+                let _ = o.flush();
+            }
             if idx != u64::MAX {
                 let since = IN_FLIGHT_SINCE_MS.load(Ordering::SeqCst);
                 if mono_ms().saturating_sub(since) > CASE_BUDGET_MS.load(Ordering::SeqCst)
@@ -504,6 +514,7 @@ pub fn worker_main(engine: &dyn Engine, args: &[String]) -> i32 {
                     let _ = o.flush();
                     std::process::exit(3);
                 }
+            }
             }
         });
     }
